@@ -10,7 +10,9 @@ require (
 	deps.dev/util/resolve v0.0.0
 	deps.dev/util/semver v0.0.0
 	golang.org/x/mod v0.22.0
+	google.golang.org/genproto v0.0.0-20230410155749-daa745c078e1
 	google.golang.org/grpc v1.71.1
+	google.golang.org/protobuf v1.36.6
 	pgregory.net/rapid v1.3.0
 )
 
@@ -18,8 +20,6 @@ require (
 	golang.org/x/net v0.38.0 // indirect
 	golang.org/x/sys v0.31.0 // indirect
 	golang.org/x/text v0.23.0 // indirect
-	google.golang.org/genproto v0.0.0-20230410155749-daa745c078e1 // indirect
-	google.golang.org/protobuf v1.36.6 // indirect
 )
 
 replace (
